@@ -5,6 +5,7 @@ import Driver.C06
 import Driver.C07
 import Driver.C29
 import Driver.Pool
+import Driver.C25
 open Mitum Mitum.Driver
 
 def step (line : String) : String :=
@@ -16,6 +17,7 @@ def step (line : String) : String :=
   | "C22" :: ts => stepC22 ts
   | "C23" :: ts => stepC23 ts
   | "C24" :: ts => stepC24 ts
+  | "C25" :: ts => stepC25 ts
   | "C29" :: ts => stepC29 ts
   | "C35" :: ts => stepC35 ts
   | "C38" :: ts => stepC38 ts
